@@ -103,6 +103,7 @@ type side struct {
 	flog    [2][]string
 	sub     avfs.VFS
 	suborig string
+	subObs  hooked // the same subtree obtained from the base directly: dumps what the pooled Sub sees
 }
 
 // consRec is one consultation of the failure function.
@@ -159,6 +160,13 @@ type sys struct {
 	faultClass  string
 	basePanics  int
 	lastRender  string
+
+	// fault plan: the twin base is driven in lock-step; it does not execute the
+	// call that was made to fail. twinOff: the twin cannot follow any more (a
+	// composite failed half-way, or the sides diverged): from then on only the
+	// oracles that need no twin apply.
+	twinOff      bool
+	setupChecked bool
 }
 
 func newSys(baseName, plan string) *sys {
@@ -262,6 +270,7 @@ func (s *sys) Reset() error {
 	s.fired, s.faultDone, s.pending = false, false, false
 	s.faultClass = ""
 	s.viols = nil
+	s.twinOff = false
 
 	s.installRandom()
 
@@ -295,7 +304,7 @@ func (s *sys) Reset() error {
 		return fmt.Errorf("unknown plan %q", s.plan)
 	}
 
-	if s.plan == "none" || s.plan == "okfunc" {
+	if s.plan == "none" || s.plan == "okfunc" || s.plan == "fault" {
 		b, err := newBase(s.baseName)
 		if err != nil {
 			return err
@@ -303,12 +312,19 @@ func (s *sys) Reset() error {
 
 		s.twin = &side{base: b, top: b}
 
-		if sa, sb := baseState(a), baseState(b); sa != sb {
-			return fmt.Errorf("twin bases differ after setup: %s", fsx.DiffLines(strings.Split(sa, "\n"), strings.Split(sb, "\n")))
+		// harness self-check (the fault plan builds instances by the hundred thousand: first build only)
+		if s.plan != "fault" || !s.setupChecked {
+			if sa, sb := baseState(a), baseState(b); sa != sb {
+				return fmt.Errorf("twin bases differ after setup: %s", fsx.DiffLines(strings.Split(sa, "\n"), strings.Split(sb, "\n")))
+			}
 		}
 	}
 
-	s.lastKey = s.key()
+	s.setupChecked = true
+
+	if s.plan != "fault" {
+		s.lastKey = s.key() // the fault plan has no use for Key(): its callers compute key() when they need it
+	}
 
 	return nil
 }
@@ -434,21 +450,53 @@ func (s *sys) handleDesc(sd *side, slot int, probe bool) string {
 	return d + " log=" + strings.Join(sd.flog[slot], ";")
 }
 
-func (s *sys) key() string {
-	ref, ri := s.twin, 1
-	if ref == nil {
-		ref, ri = s.impl, 0
+func (s *sys) keySide(sb *strings.Builder, ref *side, ri int, probe, withBase bool) {
+	if withBase {
+		sb.WriteString(baseState(ref.base))
 	}
-
-	var sb strings.Builder
-
-	sb.WriteString(baseState(ref.base))
 
 	for slot := range ref.files {
-		fmt.Fprintf(&sb, "\nh%d: %s", slot, s.handleDesc(ref, slot, s.twin != nil))
+		fmt.Fprintf(sb, "\nh%d: %s", slot, s.handleDesc(ref, slot, probe))
 	}
 
-	fmt.Fprintf(&sb, "\nsub: %s %s\nrnd=%d", ref.suborig, viewState(ref.sub), s.rnd[ri])
+	fmt.Fprintf(sb, "\nsub: %s %s\nrnd=%d", ref.suborig, viewState(ref.sub), s.rnd[ri])
+
+	// The directory a Sub is rooted at can be removed from the tree (RemoveAll of
+	// an ancestor): what is then made through the Sub lives in a detached subtree
+	// that the dump of the base does not show.
+	if ref.subObs != nil {
+		fsx.Guard(func() {
+			for _, l := range ref.subObs.VerifDump() {
+				sb.WriteString("\n  sub| ")
+				sb.WriteString(l)
+			}
+		})
+	}
+}
+
+// key is the canonical state. Lock-step plans: the twin side, handles probed
+// (offset, Stat) since probing a base handle consults nothing. Read-only
+// plan: the FailFS side, handles described by the log of the calls made on
+// them. Fault plan: the FailFS side described by logs (probing a FailFile
+// would consult the failure function) and, while the twin follows, the probed
+// twin handles.
+func (s *sys) key() string {
+	var sb strings.Builder
+
+	switch {
+	case s.plan == "fault":
+		s.keySide(&sb, s.impl, 0, false, true)
+
+		if s.twin != nil && !s.twinOff {
+			// the base of a twin that still follows equals the base above
+			sb.WriteString("\n-- twin --")
+			s.keySide(&sb, s.twin, 1, true, false)
+		}
+	case s.twin != nil:
+		s.keySide(&sb, s.twin, 1, true, true)
+	default:
+		s.keySide(&sb, s.impl, 0, false, true)
+	}
 
 	return sb.String()
 }
@@ -703,7 +751,7 @@ var (
 	logNoProb = map[string]bool{"Read": true, "Write": true, "WriteString": true, "Seek": true, "Close": true, "ReadDir": true, "Readdirnames": true}
 )
 
-func (s *sys) apply(sd *side, which int, o op, idx int) (out stepOut) {
+func (s *sys) apply(sd *side, which int, o op, idx int, skipClose bool) (out stepOut) {
 	s.rndSide = which
 	track := which == 0
 
@@ -752,7 +800,9 @@ func (s *sys) apply(sd *side, which int, o op, idx int) (out stepOut) {
 	if file != nil {
 		out.Main = guarded(func() result { return execFile(sd.top, file, o.C) })
 
-		probe := s.twin != nil
+		// handles of this side are probed by key() (see there): then only what a
+		// probe cannot see is logged
+		probe := s.twin != nil && !(s.plan == "fault" && which == 0)
 		if (probe && logAlways[o.C.Op]) || (!probe && logNoProb[o.C.Op]) {
 			sd.flog[o.Slot] = append(sd.flog[o.Slot], fileCallString(o.C)+"="+out.Main.Res.Kind)
 		}
@@ -769,7 +819,7 @@ func (s *sys) apply(sd *side, which int, o op, idx int) (out stepOut) {
 
 		if o.Store == "file" {
 			sd.files[o.Slot], sd.forig[o.Slot], sd.fopen[o.Slot], sd.flog[o.Slot] = f, orig, o.Thru+"."+o.C.String(), nil
-		} else {
+		} else if !skipClose {
 			cctx := callCtx{Idx: idx, Part: "close", Via: "file", Method: "Close", Variant: originClass(orig)}
 			if track {
 				s.beginCall(cctx)
@@ -786,7 +836,13 @@ func (s *sys) apply(sd *side, which int, o op, idx int) (out stepOut) {
 	}
 
 	if out.Main.Sub != nil && o.Store == "sub" {
-		sd.sub, sd.suborig = out.Main.Sub, o.C.String()
+		sd.sub, sd.suborig, sd.subObs = out.Main.Sub, o.C.String(), nil
+
+		fsx.Guard(func() {
+			if b, err := sd.base.Sub(o.C.A); err == nil {
+				sd.subObs, _ = b.(hooked)
+			}
+		})
 	}
 
 	return out
@@ -848,14 +904,7 @@ func (s *sys) Step(i int) bfs.StepResult {
 	case "readonly":
 		return s.stepReadonly(o, idx)
 	case "fault":
-		oi := s.apply(s.impl, 0, o, idx)
-		s.lastRender = oi.render()
-
-		if oi.NA {
-			return bfs.StepResult{Outcome: "n/a"}
-		}
-
-		return bfs.StepResult{Outcome: oi.outcome(o), Viols: s.viols, Rebuild: oi.poisoned(), Broken: oi.poisoned()}
+		return s.stepFault(o, idx)
 	}
 
 	return s.stepLock(o, idx)
@@ -864,16 +913,20 @@ func (s *sys) Step(i int) bfs.StepResult {
 func (s *sys) cmpRes(ctx callCtx, what string, ri, rt fsx.Res) bool {
 	switch {
 	case ri.Kind != rt.Kind:
-		kind := "differs-from-base"
+		kind := s.diffKind()
 		if ri.Kind == "PANIC" || ri.Kind == "DEADLOCK" {
 			kind = strings.ToLower(ri.Kind)
+
+			if s.plan == "fault" && ri.Kind == "PANIC" && inFailfs(ri.Msg) {
+				return false // reported by endCall
+			}
 		}
 
 		s.addViol(s.sig(ctx, kind, rt.Kind, ri.Kind), fmt.Sprintf("%s: base %s (%s), FailFS %s (%s)", what, rt.String(), rt.Msg, ri.String(), ri.Msg))
 
 		return false
 	case ri.Val != rt.Val:
-		s.addViol(s.sig(ctx, "differs-from-base", rt.Kind+":value", ri.Kind+":other-value"), fmt.Sprintf("%s: base %s, FailFS %s", what, rt.String(), ri.String()))
+		s.addViol(s.sig(ctx, s.diffKind(), rt.Kind+":value", ri.Kind+":other-value"), fmt.Sprintf("%s: base %s, FailFS %s", what, rt.String(), ri.String()))
 
 		return false
 	}
@@ -881,19 +934,23 @@ func (s *sys) cmpRes(ctx callCtx, what string, ri, rt fsx.Res) bool {
 	return true
 }
 
-func (s *sys) stepLock(o op, idx int) bfs.StepResult {
-	oi := s.apply(s.impl, 0, o, idx)
-	s.lastRender = oi.render()
-
-	if oi.NA {
-		return bfs.StepResult{Outcome: "n/a", Key: s.lastKey}
+// diffKind names a divergence between FailFS and the twin base: in the fault
+// plan it can only be seen after the injected failure (see stepFault).
+func (s *sys) diffKind() string {
+	if s.plan == "fault" {
+		return "differs-from-base-after-failure"
 	}
 
-	ot := s.apply(s.twin, 1, o, idx)
-	broken := false
+	return "differs-from-base"
+}
 
+// compareSides is the lock-step oracle: results of the call (and of the Close
+// of a handle that is not pooled), base state and Sub view state are equal on
+// both sides. skippedClose: the twin did not close the returned handle because
+// that Close was the call made to fail.
+func (s *sys) compareSides(o op, oi, ot stepOut, skippedClose bool) (broken bool) {
 	if ot.NA {
-		s.addViol(s.sig(oi.ctx, "differs-from-base", "object present", "twin object missing"), "the twin has no object for this call: an earlier call diverged")
+		s.addViol(s.sig(oi.ctx, s.diffKind(), "object present", "twin object missing"), "the twin has no object for this call: an earlier call diverged")
 
 		broken = true
 	} else {
@@ -902,8 +959,14 @@ func (s *sys) stepLock(o op, idx int) bfs.StepResult {
 		}
 
 		switch {
+		case skippedClose:
+			if (oi.Main.File == nil) != (ot.Main.File == nil) {
+				s.addViol(s.sig(oi.ctx, s.diffKind(), "handle", "handle on one side only"), "a handle was returned on one side only")
+
+				broken = true
+			}
 		case (oi.Close == nil) != (ot.Close == nil):
-			s.addViol(s.sig(oi.ctx, "differs-from-base", "handle", "handle on one side only"), "a handle was returned on one side only")
+			s.addViol(s.sig(oi.ctx, s.diffKind(), "handle", "handle on one side only"), "a handle was returned on one side only")
 
 			broken = true
 		case oi.Close != nil:
@@ -916,9 +979,15 @@ func (s *sys) stepLock(o op, idx int) bfs.StepResult {
 		}
 	}
 
+	// fault plan, before the injected failure: the run is the fault-free run, whose
+	// base states the okfunc plan has compared on this very history
+	if s.plan == "fault" && !s.fired {
+		return broken
+	}
+
 	sa, sb := baseState(s.impl.base), baseState(s.twin.base)
 	if sa != sb {
-		s.addViol(s.sig(oi.ctx, "differs-from-base", "same base state", "base state differs"),
+		s.addViol(s.sig(oi.ctx, s.diffKind(), "same base state", "base state differs"),
 			"base under FailFS vs twin base (-twin +FailFS): "+fsx.DiffLines(strings.Split(sb, "\n"), strings.Split(sa, "\n"))+"; result "+oi.render())
 
 		broken = true
@@ -928,11 +997,25 @@ func (s *sys) stepLock(o op, idx int) bfs.StepResult {
 		broken = true
 	} else if s.impl.sub != nil {
 		if va, vb := viewState(s.impl.sub), viewState(s.twin.sub); va != vb && !strings.Contains(va, "cwd=?") {
-			s.addViol(s.sig(oi.ctx, "differs-from-base", "same Sub view state", "Sub view state differs"), "twin "+vb+" FailFS "+va)
+			s.addViol(s.sig(oi.ctx, s.diffKind(), "same Sub view state", "Sub view state differs"), "twin "+vb+" FailFS "+va)
 
 			broken = true
 		}
 	}
+
+	return broken
+}
+
+func (s *sys) stepLock(o op, idx int) bfs.StepResult {
+	oi := s.apply(s.impl, 0, o, idx, false)
+	s.lastRender = oi.render()
+
+	if oi.NA {
+		return bfs.StepResult{Outcome: "n/a", Key: s.lastKey}
+	}
+
+	ot := s.apply(s.twin, 1, o, idx, false)
+	broken := s.compareSides(o, oi, ot, false)
 
 	poisoned := oi.poisoned() || ot.poisoned()
 	key := s.key()
@@ -945,10 +1028,100 @@ func (s *sys) stepLock(o op, idx int) bfs.StepResult {
 	}
 }
 
+// stepFault: one call under the plan "consultation K returns E", the twin base
+// in lock-step. The twin does not execute the call that is made to fail ("the
+// underlying file system is left untouched by that call"), so that every later
+// call, which the failure function lets through, must behave on FailFS exactly
+// as on the twin: same result, same base state, and - through the results of
+// the calls on pooled handles - same handle state (an injected FileClose must
+// leave the handle open, an injected FileSeek/FileRead/FileWrite must leave
+// its offset alone, ...).
+//
+// The twin can skip the failed call when that call is a primitive (its own id
+// is all it consults), or a composite whose failing consultation is its first
+// and only one (nothing of the composite was executed). When a composite is
+// made to fail half-way its legitimate partial effects cannot be replayed on
+// the twin: the twin is dropped and the rest of the history is only required
+// not to panic and to leave the untouched clause intact (endCall).
+func (s *sys) stepFault(o op, idx int) bfs.StepResult {
+	wasFired := s.fired
+	nviol := 0
+
+	oi := s.apply(s.impl, 0, o, idx, false)
+	s.lastRender = oi.render()
+
+	if oi.NA {
+		return bfs.StepResult{Outcome: "n/a"}
+	}
+
+	res := bfs.StepResult{Outcome: oi.outcome(o), Rebuild: oi.poisoned(), Broken: oi.poisoned()}
+
+	if s.twin != nil && !s.twinOff {
+		nviol = len(s.viols)
+		skipMain, skipClose := false, false
+
+		if !wasFired && s.fired {
+			ctx := s.firedCtx
+			inPart := 0
+
+			for _, c := range s.trace[ctx.from:] {
+				if c.Part == ctx.Part {
+					inPart++
+				}
+			}
+
+			comp := ctx.Via != "file" && composite[ctx.Method]
+
+			switch {
+			case comp && !(s.K == ctx.from && inPart == 1):
+				s.twinOff = true
+			case ctx.Part == "main":
+				skipMain = true
+			default:
+				skipClose = true
+			}
+		}
+
+		switch {
+		case s.twinOff:
+		case skipMain:
+			// nothing was executed, so nothing may have come out of the call or changed
+			// (both are reported by endCall: nil-error, base-touched)
+			if oi.Main.File != nil || oi.Main.Sub != nil || oi.Close != nil || baseState(s.impl.base) != baseState(s.twin.base) {
+				s.twinOff = true
+			}
+
+			s.rnd[1] = s.rnd[0]
+		default:
+			ot := s.apply(s.twin, 1, o, idx, skipClose)
+
+			if s.compareSides(o, oi, ot, skipClose) {
+				s.twinOff = true
+				res.Broken = true
+			}
+
+			if ot.poisoned() {
+				s.twinOff = true
+				res.Broken, res.Rebuild = true, true
+			}
+
+			if !s.fired {
+				// before the injected failure the run is the fault-free run, which the
+				// okfunc plan judges: a divergence here is reported there
+				s.viols = s.viols[:nviol]
+			}
+		}
+	}
+
+	res.Viols = s.viols
+
+	return res
+}
+
 func (s *sys) stepReadonly(o op, idx int) bfs.StepResult {
 	before := s.roDump()
 
-	oi := s.apply(s.impl, 0, o, idx)
+	oi := s.apply(s.impl, 0, o, idx, false)
 	s.lastRender = oi.render()
 
 	if oi.NA {
